@@ -2261,7 +2261,7 @@ async fn handle_packet(
                     // the incoming source) is a separate concern gated by
                     // `enable_latching` inside handle_stun_request — it is NOT the same
                     // as "should we even reply to this STUN message".
-                    handle_stun_request(&sender, &msg, addr, inner).await;
+                    handle_stun_request(&sender, &msg, packet, addr, inner).await;
                 } else if msg.class == StunClass::SuccessResponse {
                     let mut map = inner.pending_transactions.lock();
                     if let Some(tx) = map.remove(&msg.transaction_id) {
@@ -2373,6 +2373,7 @@ async fn handle_packet(
 async fn handle_stun_request(
     sender: &IceSocketWrapper,
     msg: &StunDecoded,
+    packet: &[u8],
     addr: SocketAddr,
     inner: Arc<IceTransportInner>,
 ) {
@@ -2409,6 +2410,20 @@ async fn handle_stun_request(
         }
     } else {
         debug!("Failed to encode STUN Response");
+    }
+
+    // RFC 8445 7.3: in WebRTC mode only a check that names this agent in USERNAME and
+    // carries a MESSAGE-INTEGRITY under the local password may touch ICE state
+    // (learn a candidate, select a pair, nominate). It is still answered above.
+    // RTP/SRTP (latching) modes keep accepting bare probes.
+    if inner.config.transport_mode == crate::TransportMode::WebRtc {
+        let local = inner.local_parameters.lock().clone();
+        let user_ok = msg.username.as_deref().and_then(|u| u.split(':').next())
+            == Some(local.username_fragment.as_str());
+        if !user_ok || !msg.verify_integrity(packet, local.password.as_bytes()) {
+            debug!("Ignoring unauthenticated STUN Binding request from {}", addr);
+            return;
+        }
     }
 
     // Check if we know this candidate
